@@ -118,9 +118,12 @@ impl<const N: usize> Sodg<N> {
     #[inline]
     pub fn put(&mut self, v: usize, d: &Hex) {
         let vtx = self.vertices.get_mut(v).unwrap();
+        let fresh = vtx.persistence != Persistence::Stored;
         vtx.persistence = Persistence::Stored;
         vtx.data = d.clone();
-        *self.stores.get_mut(vtx.branch).unwrap() += 1;
+        if fresh {
+            *self.stores.get_mut(vtx.branch).unwrap() += 1;
+        }
         #[cfg(debug_assertions)]
         trace!("#put: data of ν{v} set to {d}");
     }
